@@ -695,11 +695,13 @@ func (c *otApplyContext) applyGPOSMarkToMark(data tables.MarkMarkPos, mark1Index
 	skippyIter := &c.iterInput
 	skippyIter.reset(buffer.idx, 1)
 	skippyIter.matcher.lookupProps = c.lookupProps &^ uint32(ignoreFlags)
-	if ok, _ := skippyIter.prev(); !ok {
+	if ok, unsafeFrom := skippyIter.prev(); !ok {
+		buffer.unsafeToConcatFromOutbuffer(unsafeFrom, buffer.idx+1)
 		return false
 	}
 
 	if !buffer.Info[skippyIter.idx].isMark() {
+		buffer.unsafeToConcatFromOutbuffer(skippyIter.idx, buffer.idx+1)
 		return false
 	}
 
@@ -725,11 +727,13 @@ func (c *otApplyContext) applyGPOSMarkToMark(data tables.MarkMarkPos, mark1Index
 	}
 
 	/* Didn't match. */
+	buffer.unsafeToConcatFromOutbuffer(skippyIter.idx, buffer.idx+1)
 	return false
 
 good:
 	mark2Index, ok := data.Mark2Coverage.Index(gID(buffer.Info[j].Glyph))
 	if !ok {
+		buffer.unsafeToConcatFromOutbuffer(skippyIter.idx, buffer.idx+1)
 		return false
 	}
 
